@@ -6,7 +6,7 @@
    The theorems state this for the formulas the grad samplers compute (Gen/GradSample.v names which formula each registered sampler uses),
    for ONE sample alone, over an arbitrary commutative ring, for all extents. *)
 From Coq Require Import List Arith Ring ZArith.
-From OV Require Import Model.Layers Proofs.LayersP Gen.GradSample.
+From OV Require Import Model.Layers Model.GsHooks Proofs.LayersP Gen.GradSample.
 Import ListNotations.
 Section C01.
 Variable K : Type.
@@ -47,6 +47,13 @@ Theorem C01_gs_sum_is_batch_grad (B n : nat) (gs : nat -> nat -> K) (pairing : n
   sumn n (fun i => kmul (sumn B (fun s => gs s i)) (d i)) = sumn B pairing.
 Proof. exact (gs_sum_is_batch_grad K k0 k1 kadd kmul ksub kopp Kring B n gs pairing d). Qed.
 End C01.
+(* hook bookkeeping (forward counter, accumulate, promote; pinned in Gen/GradSample.v): for ANY number of uses of a layer within one
+   forward and any samples already stacked from earlier batches, the matching backward hooks leave counter 0, no accumulator, and exactly
+   one new stacked entry: the prefix-wise sum of the per-use samples zero-padded to the batch length *)
+Theorem C01_uses_then_promote (K : Type) (k0 : K) (kadd : K -> K -> K) (mb : nat) (g1 : list K) (gs : list (list K)) (stacked : list (list K)) :
+  fold_left (bwd K k0 kadd mb) (g1 :: gs) (Nat.iter (S (length gs)) (fwd K) (mkp K 0 None stacked))
+  = mkp K 0 None (stacked ++ [fold_left (prefix_add K kadd) gs (pad K k0 mb g1)]).
+Proof. exact (uses_then_promote K k0 kadd mb g1 gs stacked). Qed.
 (* the registered samplers use exactly these formulas (table generated from the sources) *)
 Theorem C01_sampler_table_covers :
   forallb (fun r => match snd r with FLinW | FLinB | FEmbScatterPadZero | FNormW | FNormB | FSeqBiasLast => true end) sampler_table = true /\ Nat.leb 1 (length sampler_table) = true.
@@ -65,4 +72,5 @@ Print Assumptions C01_norm_affine_gs_is_grad.
 Print Assumptions C01_uses_accumulate.
 Print Assumptions C01_mean_rescale.
 Print Assumptions C01_gs_sum_is_batch_grad.
+Print Assumptions C01_uses_then_promote.
 Print Assumptions C01_sampler_table_covers.
